@@ -87,11 +87,20 @@ def _z3_py(smt2, timeout_ms, seed=0, opts=None, tag="", simple=False):
     s.set("random_seed", seed)
     for k, v in (opts or {}).items():
         s.set(k, v)
+    # watchdog: z3's own timeout is not honoured in every phase (preprocessing, some quantifier
+    # instantiation loops); interrupt the context a little after the budget
+    import threading
+
+    wd = threading.Timer(timeout_ms / 1000.0 + 3.0, ctx.interrupt)
+    wd.daemon = True
+    wd.start()
     try:
         s.from_string(smt2)
         r = s.check()
     except z3.Z3Exception as e:
         return {"result": "error", "reason": str(e)[:300], "time": time.time() - t0, "solver": "z3py"}
+    finally:
+        wd.cancel()
     out = {"result": str(r), "time": time.time() - t0, "solver": "z3-5.1(py)" + tag}
     if r == z3.sat:
         m = s.model()
